@@ -113,7 +113,7 @@ def expected(b):
         fsig = signatures.signature(b.target.__func__)
         alts, why, pcs = _function_expectation(b, fsig)
         return finish(alts, why, pcs, lambda e: signatures.mask(e, 1), ', bound')
-    if route in ('param', 'param_shadow_lambda'):
+    if route in ('param', 'param_shadow_lambda', 'param_shadow_kwonly', 'param_default'):
         fsig = signatures.signature(b.target.func)
         alts, why, pcs = _function_expectation(b, fsig)
         n = len(b.target.args)
@@ -140,8 +140,14 @@ def _own_def_signature(func):
     return s.replace(sources=srcs)
 
 
+def _default_view(v):
+    import types
+    # generated modules are loaded afresh for every program: a function default is compared by name
+    return ('function', v.__qualname__) if isinstance(v, types.FunctionType) else v
+
+
 def param_list(sig):
-    return [(p.name, int(p.kind), None if p.default is p.empty else p.default,
+    return [(p.name, int(p.kind), None if p.default is p.empty else _default_view(p.default),
              None if p.annotation is p.empty else p.annotation) for p in sig.parameters.values()]
 
 
